@@ -129,7 +129,7 @@ def check_bottleneck(rep, project):
     rep.analysed(fi)
     D = run.cost_matrix()
     check_nonint(rep, run)
-    appends = [ev for ev in run.events("method-call") if ev["fi"] is fi and ev["target"] == "append"
+    appends = [ev for ev in run.events("method-call") if ev["target"] == "append"
                and isinstance(ev["pos"][0], Seq) and len(ev["pos"][0].items) == 3]
     if not appends:
         rep.unmodelled("MT-COST", fi, fi.node, "no 3-entry row is appended to a matching list")
@@ -140,7 +140,7 @@ def check_bottleneck(rep, project):
         rep.unmodelled("MT-COST", fi, ev["node"], "matching row entries are not scalars")
         return
     # raw indices: the loop position and the partner looked up in the accepted matching
-    loops = [l for l in run.events("loop") if l["fi"] is fi and l["loop_kind"] == "for" and l["ivar"]
+    loops = [l for l in run.events("loop") if l["fi"] is ev["fi"] and l["loop_kind"] == "for" and l["ivar"]
              and l["node"].lineno <= ev["node"].lineno <= l["node"].end_lineno]
     if not loops:
         rep.unmodelled("MT-COVER", fi, ev["node"], "row-listing loop not found")
@@ -160,7 +160,7 @@ def check_bottleneck(rep, project):
         # the cost is not read at the partner's raw column
         raw_c = None
         for a in run.events("assign"):
-            if a["fi"] is fi and isinstance(a["value"], Sc) and any(
+            if isinstance(a["value"], Sc) and any(
                     x[0] == "opq" and x[1] == "hk_partner" for x in sym.walk(a["value"].e)) and a["value"].e[0] in ("opq", "choice"):
                 raw_c = a["value"].e
                 break
